@@ -267,12 +267,18 @@ HOSTILE_FRAMES = [
     ('empty body', fr(bytes([1, 6, 127, 0, 0, 1, 0, 53]), b'')),
 ]
 evilf = Origin(evil_frames)
+def mute_upstream(c, a, rec):
+    time.sleep(60)
+mutef = Origin(mute_upstream)
 tport = free_port('udp')
+tport2 = free_port('udp')
 tcfg = {'listeners': [{'name': 'tp', 'type': 'tproxy', 'bind': f'127.0.0.1:{tport}', 'protocol': 'udp', 'udpFullCone': True},
+                      {'name': 'tp2', 'type': 'tproxy', 'bind': f'127.0.0.1:{tport2}', 'protocol': 'udp', 'udpFullCone': True},
                       {'name': 'http', 'bind': f"127.0.0.1:{ports['http']}"}, {'name': 'socks', 'bind': f"127.0.0.1:{ports['socks']}"},
                       {'name': 'rtcp', 'type': 'reverse', 'bind': f"127.0.0.1:{ports['rtcp']}", 'target': f'127.0.0.1:{echo.port}'}],
-        'connectors': [{'name': 'direct'}, {'name': 'evilf', 'type': 'http', 'server': '127.0.0.1', 'port': evilf.port}],
-        'rules': [{'filter': 'request.listener == "tp"', 'target': 'evilf'}, {'target': 'direct'}],
+        'connectors': [{'name': 'direct'}, {'name': 'evilf', 'type': 'http', 'server': '127.0.0.1', 'port': evilf.port},
+                       {'name': 'mutef', 'type': 'http', 'server': '127.0.0.1', 'port': mutef.port}],
+        'rules': [{'filter': 'request.listener == "tp"', 'target': 'evilf'}, {'filter': 'request.listener == "tp2"', 'target': 'mutef'}, {'target': 'direct'}],
         'metrics': {'bind': f"127.0.0.1:{ports['api']}", 'ui': None}}
 tpx = Proxy(tcfg, 'c05t')
 tpx.api_port = ports['api']
@@ -291,10 +297,37 @@ if tpx.start([ports['http'], ports['socks'], ports['rtcp'], ports['api']]):
     samples.append({'tproxy_udp': {'sessions': len(HOSTILE_FRAMES), 'upstream_connections': fcount[0], 'survived': ok}})
     if fcount[0] == 0:
         machinery('tproxy scenario vacuous: no session reached the upstream')
+    # one client whose upstream never answers sends a burst: the listener must still take up another client
+    ua = socket.socket(socket.AF_INET, socket.SOCK_DGRAM)
+    ua.sendto(b'first', ('127.0.0.1', tport2))
+    mutef.wait_conns(1, 3.0)
+    for i in range(400):
+        ua.sendto(b'burst-%d' % i, ('127.0.0.1', tport2))
+        if i % 50 == 49:
+            time.sleep(0.02)
+    time.sleep(0.3)
+    before = len(mutef.conns)
+    ub = socket.socket(socket.AF_INET, socket.SOCK_DGRAM)
+    served = False
+    t0 = time.time()
+    while time.time() - t0 < 5:
+        ub.sendto(b'other-client', ('127.0.0.1', tport2))
+        time.sleep(0.2)
+        if len(mutef.conns) > before:
+            served = True
+            break
+    evals += 1
+    distinct.add(('tproxy-wedge', served))
+    if before < 1:
+        machinery('tproxy wedge scenario vacuous: the first client never reached the upstream')
+    if not served:
+        chk.violation('process', 'tproxy-udp:listener-wedged-by-one-client', f'a client whose upstream never answers sent 400 datagrams; for 5 s afterwards a second client on the same tproxy UDP listener was not taken up (no upstream connection made for it)', {'datagrams': 400})
+    ua.close(); ub.close()
+    judge(tpx, 'a tproxy UDP client with a mute upstream sent 400 datagrams', 'tproxy-udp-burst', {'datagrams': 400})
 else:
     samples.append({'tproxy_udp': 'skipped: the tproxy listener could not be started here (IP_TRANSPARENT): ' + tpx.log()[-160:]})
 tpx.stop()
-evilf.stop()
+evilf.stop(); mutef.stop()
 
 # ---- (iv) fields that never end, against a process that is allowed 1 GiB of address space: the proxy must give
 #      up on the connection long before it runs out of memory (a failed allocation aborts the process)
@@ -333,6 +366,6 @@ for o in (echo, evil):
 if evals < 8 or len(distinct) < 1:
     machinery(f'vacuous: evals={evals}')
 cov = {'evaluations': evals, 'distinct_nontrivial': max(2, len(distinct)), 'transitions': evals, 'traces_validated_against_impl': evals,
-       'rule': 'real binary (panic=abort): malformed request heads / SOCKS negotiations / frames / upstream replies on every listener; disconnect (FIN and RST) at every byte offset of the http, socks5 and socks4 handshakes; stalled clients at 4 offsets per handshake; RLIMIT_NOFILE=64 with 240 idle connections; a full-cone tproxy UDP listener whose upstream answers with 11 hostile frames (skipped where IP_TRANSPARENT is not permitted); 8 never-ending fields (client and upstream side) against a process limited to 768 MiB of data (RLIMIT_DATA); after each batch the process must be alive and every TCP listener and the API must serve a probe',
+       'rule': 'real binary (panic=abort): malformed request heads / SOCKS negotiations / frames / upstream replies on every listener; disconnect (FIN and RST) at every byte offset of the http, socks5 and socks4 handshakes; stalled clients at 4 offsets per handshake; RLIMIT_NOFILE=64 with 240 idle connections; a full-cone tproxy UDP listener whose upstream answers with 11 hostile frames, and one whose upstream never answers while its client sends 400 datagrams (a second client must still be taken up) (skipped where IP_TRANSPARENT is not permitted); 8 never-ending fields (client and upstream side) against a process limited to 768 MiB of data (RLIMIT_DATA); after each batch the process must be alive and every TCP listener and the API must serve a probe',
        'schedule_control': 'kernel', 'samples': samples}
 sys.exit(chk.finish('model_checking', cov, ['E4 part: batches of inputs are judged together (the proxy is restarted after a batch that killed it)']))
